@@ -142,7 +142,7 @@ HAND = [
                    "<xsl:value-of select='concat(substring-before(\"a-b\",\"-\"), substring-after(\"a-b\",\"-\"), string-length(\"\U0001F600\"))'/>"
                    "<xsl:value-of select='starts-with(name(//*[last()]), \"e\") and contains(\"ab\",\"b\") or lang(\"en\")'/>"
                    "<xsl:value-of select='floor(-1.5) + ceiling(1.2) + round(2.5) + number(\"1e3\") mod 7 - -0'/></xsl:template>"), SRC, '', ''),
-    ('exslt', ss("<xsl:template match='/'><xsl:value-of select='m:max(//@n)'/><xsl:value-of select='s:padding(3,\"ab\")'/>"
+    ('exslt', ss("<xsl:template match='/'><xsl:value-of select='m:max(//@n)'/><xsl:value-of select='s:align(\"abc\",\"------\",\"right\")'/>"
                  "<xsl:value-of select='count(t:distinct(//item/@n))'/><xsl:value-of select='d:evaluate(\"1+1\")'/></xsl:template>",
                  "xmlns:m='http://exslt.org/math' xmlns:s='http://exslt.org/strings' xmlns:t='http://exslt.org/sets' xmlns:d='http://exslt.org/dynamic'"), SRC, '', ''),
     ('bignum', ss("<xsl:template match='/'><xsl:value-of select='1" + "0" * 89 + "'/>|<xsl:value-of select='-0." + "0" * 60 + "1'/>|"
